@@ -59,6 +59,21 @@ Theorem C07_stable_literal_re : forall (pat rs : bytes),
 Proof. exact lit_stable. Qed.
 Print Assumptions C07_stable_literal_re.
 
+(* RS assigned by the program while a regexSplitter is reading the file (the splitter sees the
+   recompiled regex at its next call): still independent of the delivery, provided every regex
+   in force satisfies match_final.  State n = records delivered so far. *)
+Theorem C07_rs_change_partial : forall (rs_at : nat -> bytes) (find_at : nat -> bytes -> option (Z * Z)),
+  (forall n d s e, find_at n d = Some (s, e) -> 0 <= s /\ s <= e /\ e <= zlen d) ->
+  (forall n, match_final (find_at n)) ->
+  forall last_eof chunks, reader_ok last_eof O chunks ->
+  scan nat record (regex_split_sched rs_at find_at) last_eof O chunks
+  = scan nat record (regex_split_sched rs_at find_at) false O [concat chunks].
+Proof.
+  intros rs_at find_at Hb Hm last_eof chunks Hr.
+  exact (chunk_independence nat record _ (sched_stable rs_at find_at Hb Hm) last_eof O chunks Hr).
+Qed.
+Print Assumptions C07_rs_change_partial.
+
 (* goawk, RS <> "": the sequence of ($0, RT) - hence NR - does not depend on the delivery.
    For a regex RS this needs match_final (guard excluding F-C07-1). *)
 Theorem C07_goawk_chunk_independence_partial : forall (find : bytes -> option (Z * Z)),
